@@ -20,9 +20,11 @@ def selfcheck():
         assert f["status"] in ("open", "fixed"), f
         for w in f.get("witnesses", []):
             assert os.path.exists(os.path.join(V, w["file"])), w
+    from .ref import selftest
+    n_ref = selftest.run()
     import importlib
     for i in ids:
         importlib.import_module("simverif.props." + i.lower())
-    print("selfcheck ok: torch %s, %d checks, %d not applicable, %d findings entries" % (
-        torch.__version__, len(ids), len(na), len(runner.load_findings())))
+    print("selfcheck ok: torch %s, %d checks, %d not applicable, %d findings entries, %d reference-model unit checks" % (
+        torch.__version__, len(ids), len(na), len(runner.load_findings()), n_ref))
     return 0
